@@ -215,7 +215,9 @@ Record Inv (s : state) : Prop := {
   inv_bn : NoDup (bnonces (batches s));
   inv_bnlt : forall b, In b (batches s) -> b_nonce b < next_batch s;
   inv_cn : NoDup (map c_nonce (calls s));
-  inv_cnlt : forall c, In c (calls s) -> c_nonce c < next_call s
+  inv_cnlt : forall c, In c (calls s) -> c_nonce c < next_call s;
+  inv_rel : forall r, In r (relation s) -> In r (ids (live s));
+  inv_reln : NoDup (relation s)
 }.
 
 (* cancel_batch: the transfers move to the pool; nothing else about transfers changes *)
@@ -230,7 +232,7 @@ Lemma cancel_batch_spec : forall c s b s' evs,
     next_tx s' = next_tx s /\ next_batch s' = next_batch s /\ next_call s' = next_call s /\
     calls s' = calls s /\ by_sender s' = by_sender s /\ from_msg s' = from_msg s /\ pending s' = pending s /\
     evn s' = evn s /\ obs_ext s' = obs_ext s /\ obs_fx s' = obs_fx s /\ fxh s' = fxh s /\ bal s' = bal s /\
-    prm s' = prm s /\ toks s' = toks s.
+    prm s' = prm s /\ toks s' = toks s /\ relation s' = relation s.
 Proof.
   unfold cancel_batch; intros c s b s' evs ND H.
   destruct (find_batch (b_token b) (b_nonce b) (batches s)) as [b0|] eqn:F; [|discriminate].
@@ -262,7 +264,8 @@ Record same_but_batches (s s' : state) : Prop := {
   sb_tx : next_tx s' = next_tx s; sb_nb : next_batch s' = next_batch s; sb_nc : next_call s' = next_call s;
   sb_calls : calls s' = calls s; sb_bs : by_sender s' = by_sender s; sb_fm : from_msg s' = from_msg s;
   sb_pend : pending s' = pending s; sb_evn : evn s' = evn s; sb_ext : obs_ext s' = obs_ext s; sb_fx : obs_fx s' = obs_fx s;
-  sb_fxh : fxh s' = fxh s; sb_bal : bal s' = bal s; sb_prm : prm s' = prm s; sb_toks : toks s' = toks s
+  sb_fxh : fxh s' = fxh s; sb_bal : bal s' = bal s; sb_prm : prm s' = prm s; sb_toks : toks s' = toks s;
+  sb_rel : relation s' = relation s
 }.
 
 Lemma sbb_refl : forall s, same_but_batches s s.
@@ -319,7 +322,8 @@ Record shrink (s s' : state) : Prop := {
   sh_cn : NoDup (cnonces (calls s)) -> NoDup (cnonces (calls s'));
   sh_tx : next_tx s' = next_tx s; sh_nb : next_batch s' = next_batch s; sh_nc : next_call s' = next_call s;
   sh_pend : pending s' = pending s; sh_evn : evn s' = evn s; sh_ext : obs_ext s' = obs_ext s; sh_fx : obs_fx s' = obs_fx s;
-  sh_fxh : fxh s' = fxh s; sh_prm : prm s' = prm s; sh_toks : toks s' = toks s
+  sh_fxh : fxh s' = fxh s; sh_prm : prm s' = prm s; sh_toks : toks s' = toks s;
+  sh_rel : relation s' = relation s
 }.
 
 Lemma shrink_refl : forall s, shrink s s.
@@ -414,7 +418,7 @@ Lemma send_spec : forall s sender dest amount fee token s' evs,
   Permutation (pool s') (mk_tx (next_tx s) sender dest token amount fee :: pool s) /\
   batches s' = batches s /\ calls s' = calls s /\
   next_tx s' = next_tx s + 1 /\ next_batch s' = next_batch s /\ next_call s' = next_call s /\
-  obs_ext s' = obs_ext s /\ evs = [EvTxCreated (next_tx s)] /\
+  obs_ext s' = obs_ext s /\ evs = [EvTxCreated (next_tx s)] /\ relation s' = relation s /\
   exists k, kind_of (toks s) token = Some k /\ base_to_bridge (bal s) k sender token (amount + fee) = ROk (bal s').
 Proof.
   unfold do_send; intros. des H. des H. mon. simpl.
@@ -423,22 +427,48 @@ Proof.
   repeat split; auto. exists t; auto.
 Qed.
 
+(* a transfer started from the EVM (crossChain precompile): same record, paid from the FX value or from ERC-20 tokens;
+   the erc20 outgoing relation is set for the ERC-20 case only *)
+Lemma send_p_spec : forall s sender dest amount fee token s' evs,
+  do_send_p s sender dest amount fee token = ROk (s', evs) ->
+  0 < amount /\ 0 <= fee /\
+  Permutation (pool s') (mk_tx (next_tx s) sender dest token amount fee :: pool s) /\
+  batches s' = batches s /\ calls s' = calls s /\
+  next_tx s' = next_tx s + 1 /\ next_batch s' = next_batch s /\ next_call s' = next_call s /\
+  obs_ext s' = obs_ext s /\ evs = [EvTxCreated (next_tx s)] /\ pending s' = pending s /\
+  ((kind_of (toks s) token = Some KNative /\ relation s' = relation s /\
+    base_to_bridge (bal s) KNative sender token (amount + fee) = ROk (bal s')) \/
+   (kind_of (toks s) token = Some KCoin /\ relation s' = next_tx s :: relation s /\
+    exists l0 l1, debit (bal s) (sender, token, 2) (amount + fee) = ROk l0 /\ debit l0 (ERC20MOD, token, 0) (amount + fee) = ROk l1 /\
+      base_to_bridge (credit l1 (sender, token, 0) (amount + fee)) KCoin sender token (amount + fee) = ROk (bal s'))).
+Proof.
+  unfold do_send_p; intros. des H.
+  apply orb_false_iff in E. destruct E as [E1 E2]. apply Z.leb_gt in E1. apply Z.ltb_ge in E2.
+  destruct (kind_of (toks s) token) as [[| |]|] eqn:K; try discriminate; mon; simpl in *.
+  - apply add_unbatched_perm in H1. repeat split; auto.
+  - apply add_unbatched_perm in H3. repeat split; auto. right. repeat split; auto. eauto.
+Qed.
+
 Lemma cancel_spec : forall s id who s' evs, NoDup (ids (pool s)) ->
   do_cancel s id who = ROk (s', evs) ->
   exists x, In x (pool s) /\ tx_id x = id /\ tx_sender x = who /\
     Permutation (pool s) (x :: pool s') /\
     batches s' = batches s /\ calls s' = calls s /\
     next_tx s' = next_tx s /\ next_batch s' = next_batch s /\ next_call s' = next_call s /\
-    obs_ext s' = obs_ext s /\ evs = [EvTxRefund id who (tx_amount x + tx_fee x) (tx_token x)] /\
-    exists k, kind_of (toks s) (tx_token x) = Some k /\
-              bridge_to_base (bal s) k who (tx_token x) (tx_amount x + tx_fee x) = ROk (bal s').
+    obs_ext s' = obs_ext s /\ evs = [EvTxRefund id who (tx_amount x + tx_fee x) (tx_token x)] /\ pending s' = pending s /\
+    exists k l, kind_of (toks s) (tx_token x) = Some k /\
+      bridge_to_base (bal s) k who (tx_token x) (tx_amount x + tx_fee x) = ROk l /\
+      (if existsb (Z.eqb id) (relation s)
+       then hook_refund l k who (tx_token x) (tx_amount x + tx_fee x) = ROk (bal s') /\
+            relation s' = filter (fun r => negb (r =? id)) (relation s)
+       else bal s' = l /\ relation s' = relation s).
 Proof.
-  unfold do_cancel; intros s id who s' evs ND H. des H. des H. des H. mon. des H. des H. mon. simpl.
+  unfold do_cancel; intros s id who s' evs ND H. des H. des H. des H. mon. des H. des H. mon.
   apply find_by_id_in in E0. destruct E0 as [Hin Hid].
   apply negb_false_iff, Z.eqb_eq in E1.
-  exists t. repeat split; auto.
-  - eapply remove_unbatched_perm; eauto.
-  - exists t0; auto.
+  exists t. destruct (existsb (Z.eqb id) (relation s)) eqn:Rl; mon; simpl.
+  - repeat split; auto; [eapply remove_unbatched_perm; eauto|]. exists t0, x0. auto.
+  - repeat split; auto; [eapply remove_unbatched_perm; eauto|]. exists t0, x0. auto.
 Qed.
 
 Definition with_fee (x : tx) (f : Z) : tx := mk_tx (tx_id x) (tx_sender x) (tx_dest x) (tx_token x) (tx_amount x) f.
@@ -450,7 +480,7 @@ Lemma increase_spec : forall s id who add token which s' evs, NoDup (ids (pool s
     Permutation (pool s) (x :: L) /\ Permutation (pool s') (with_fee x (tx_fee x + add) :: L) /\
     batches s' = batches s /\ calls s' = calls s /\
     next_tx s' = next_tx s /\ next_batch s' = next_batch s /\ next_call s' = next_call s /\
-    obs_ext s' = obs_ext s /\ evs = [] /\
+    obs_ext s' = obs_ext s /\ evs = [] /\ relation s' = relation s /\
     exists k, kind_of (toks s) token = Some k /\ pay_added_fee (bal s) k who token add = ROk (bal s').
 Proof.
   unfold do_increase; intros s id who add token which s' evs ND H. des H. des H. des H. des H. des H. mon. simpl.
@@ -483,7 +513,7 @@ Lemma request_batch_spec : forall s token which feercv basefee minfee auth s' ev
     (forall x, In x (b_txs b) -> tx_token x = token) /\
     calls s' = calls s /\
     next_tx s' = next_tx s /\ next_batch s' = next_batch s + 1 /\ next_call s' = next_call s /\
-    obs_ext s' = obs_ext s /\ bal s' = bal s /\ evs = [EvBatchCreated token (next_batch s) (b_timeout b)].
+    obs_ext s' = obs_ext s /\ bal s' = bal s /\ evs = [EvBatchCreated token (next_batch s) (b_timeout b)] /\ relation s' = relation s.
 Proof.
   unfold do_request_batch; intros s token which feercv basefee minfee auth s' evs ND BN H.
   des H. des H. des H. des H. des H. des H. mon.
@@ -583,15 +613,48 @@ Proof.
     apply Z.ltb_lt in F1'. apply Z.eqb_eq in F2'. exists ib. repeat split; auto; lia.
 Qed.
 
+Lemma batch_executed_relation : forall s token nonce s' evs, NoDup (bnonces (batches s)) ->
+  batch_executed s token nonce = ROk (s', evs) ->
+  exists b, find_batch token nonce (batches s) = Some b /\
+    relation s' = filter (fun r => negb (existsb (fun x => tx_id x =? r) (b_txs b))) (relation s).
+Proof.
+  unfold batch_executed; intros s token nonce s' evs ND H.
+  destruct (find_batch token nonce (batches s)) as [b|] eqn:F; [|discriminate].
+  mon. destruct x as [s1 e1]. simpl in *.
+  destruct (cancel_where_spec _ _ _ _ _ _ _ ND H0) as (S1 & _).
+  exists b. split; auto. rewrite (sb_rel _ _ S1). reflexivity.
+Qed.
+
+Lemma bridge_call_relation : forall s a b c d e f s' evs, do_bridge_call s a b c d e f = ROk (s', evs) -> relation s' = relation s.
+Proof. unfold do_bridge_call; intros. des H. des H. mon. des H. inv H. reflexivity. Qed.
+Lemma bridge_call_p_relation : forall s a b c d e f g s' evs, do_bridge_call_p s a b c d e f g = ROk (s', evs) -> relation s' = relation s.
+Proof. unfold do_bridge_call_p; intros. des H. mon. des H. inv H. reflexivity. Qed.
+Lemma exec_result_relation : forall s e s' evs, do_exec_result s e = ROk (s', evs) -> relation s' = relation s.
+Proof.
+  unfold do_exec_result; intros s e s' evs H.
+  destruct (find (fun p => fst p =? e) (pending s)) as [[e' [n ok]]|]; [|discriminate]. simpl in H.
+  destruct (find_call n (calls s)) as [c|]; [|discriminate].
+  apply bind_ok in H. destruct H as ([s1 e1] & H0 & H). simpl in H. injection H as <- _.
+  assert (relation s1 = relation s).
+  { destruct ok; [injection H0 as <- _; reflexivity|]. unfold refund_call in H0.
+    apply bind_ok in H0. destruct H0 as (l & _ & H0). injection H0 as <- _. reflexivity. }
+  rewrite <- H. unfold delete_call. destruct (find_call n (calls s1)); reflexivity.
+Qed.
+
 (* ---------- what one accepted operation does to transfers, batches and calls ---------- *)
+Definition is_send (o : op) (sender dest amount fee token : Z) : Prop :=
+  o = Send sender dest amount fee token \/ o = SendP sender dest amount fee token.
+Definition evm_erc20_send (s : state) (o : op) : Prop :=
+  exists a b c d t, o = SendP a b c d t /\ kind_of (toks s) t = Some KCoin.
+
 Inductive tx_change (s s' : state) : op -> Prop :=
 | TC_none : forall o, Permutation (live s') (live s) -> next_tx s' = next_tx s ->
-    (match o with Send _ _ _ _ _ | Cancel _ _ | IncreaseFee _ _ _ _ _ | BatchExecuted _ _ _ => False | _ => True end) ->
+    (match o with Send _ _ _ _ _ | SendP _ _ _ _ _ | Cancel _ _ | IncreaseFee _ _ _ _ _ | BatchExecuted _ _ _ => False | _ => True end) ->
     tx_change s s' o
-| TC_send : forall sender dest amount fee token,
+| TC_send : forall o sender dest amount fee token, is_send o sender dest amount fee token ->
     Permutation (live s') (mk_tx (next_tx s) sender dest token amount fee :: live s) ->
     In (mk_tx (next_tx s) sender dest token amount fee) (pool s') ->
-    next_tx s' = next_tx s + 1 -> tx_change s s' (Send sender dest amount fee token)
+    next_tx s' = next_tx s + 1 -> tx_change s s' o
 | TC_cancel : forall id who x, In x (pool s) -> tx_id x = id -> tx_sender x = who ->
     Permutation (live s) (x :: live s') -> next_tx s' = next_tx s -> tx_change s s' (Cancel id who)
 | TC_fee : forall id who add token which x L, In x (pool s) -> tx_id x = id -> 0 < add ->
@@ -620,6 +683,11 @@ Record step_rel (s s' : state) (o : op) : Prop := {
   sr_nc : next_call s <= next_call s'
 }.
 
+(* the erc20 outgoing relation: kept exactly while the transfer is live, created only by an ERC-20 send from the EVM *)
+Definition rel_rel (s s' : state) (o : op) : Prop :=
+  (forall r, In r (relation s') <-> (In r (relation s) /\ In r (ids (live s'))) \/ (r = next_tx s /\ evm_erc20_send s o)) /\
+  NoDup (relation s').
+
 Lemma nodup_app_l : forall A (a b : list A), NoDup (a ++ b) -> NoDup a.
 Proof.
   induction a as [|x r IH]; simpl; intros b N; [constructor|]. inv N. constructor; eauto.
@@ -640,8 +708,27 @@ Lemma shrink_obs : forall s h s', shrink (observed s h) s' ->
   obs_ext s' = h /\ obs_fx s' = fxh s /\ evn s' = evn s + 1 /\ fxh s' = fxh s /\ prm s' = prm s /\ toks s' = toks s.
 Proof. intros s h s' []; simpl in *. repeat split; auto. Qed.
 
+Lemma rel_keep : forall s s' o, Inv s -> relation s' = relation s ->
+  (forall r, In r (ids (live s)) -> In r (ids (live s'))) -> ~ evm_erc20_send s o ->
+  (forall r, In r (relation s') <-> (In r (relation s) /\ In r (ids (live s'))) \/ (r = next_tx s /\ evm_erc20_send s o)) /\
+  NoDup (relation s').
+Proof.
+  intros s s' o I E L N. rewrite E. split; [|apply I].
+  intros r. split.
+  - intros Hr. left. split; auto. apply L, (inv_rel _ I); auto.
+  - intros [[Hr _]|[_ Hs]]; auto. contradiction.
+Qed.
+
+Lemma not_send_not_evm : forall s o,
+  (match o with Send _ _ _ _ _ | SendP _ _ _ _ _ | Cancel _ _ | IncreaseFee _ _ _ _ _ | BatchExecuted _ _ _ => False | _ => True end) ->
+  ~ evm_erc20_send s o.
+Proof. intros s o H (a & b & c & d & t & -> & _). exact H. Qed.
+
+Lemma perm_ids_in : forall a b r, Permutation a b -> In r (ids a) -> In r (ids b).
+Proof. intros a b r P H. eapply Permutation_in; [apply ids_perm; eauto|auto]. Qed.
+
 Lemma shrink_rel : forall s s' o, Inv s -> shrink s s' ->
-  (match o with Send _ _ _ _ _ | Cancel _ _ | IncreaseFee _ _ _ _ _ | BatchExecuted _ _ _ => False | _ => True end) ->
+  (match o with Send _ _ _ _ _ | SendP _ _ _ _ _ | Cancel _ _ | IncreaseFee _ _ _ _ _ | BatchExecuted _ _ _ => False | _ => True end) ->
   step_rel s s' o.
 Proof.
   intros s s' o I S Ho. destruct S. destruct I. constructor; auto; try lia.
@@ -766,7 +853,7 @@ Lemma perm_in : forall A (a b : list A) x, Permutation a b -> In x a -> In x b.
 Proof. intros; eapply Permutation_in; eauto. Qed.
 
 Lemma same_core_rel : forall s s' o, Inv s ->
-  (match o with Send _ _ _ _ _ | Cancel _ _ | IncreaseFee _ _ _ _ _ | BatchExecuted _ _ _ => False | _ => True end) ->
+  (match o with Send _ _ _ _ _ | SendP _ _ _ _ _ | Cancel _ _ | IncreaseFee _ _ _ _ _ | BatchExecuted _ _ _ => False | _ => True end) ->
   pool s' = pool s -> batches s' = batches s -> calls s' = calls s ->
   next_tx s' = next_tx s -> next_batch s' = next_batch s -> next_call s' = next_call s -> step_rel s s' o.
 Proof.
@@ -781,7 +868,13 @@ Proof.
   - (* Send *)
     destruct (send_spec _ _ _ _ _ _ _ _ H) as (_ & _ & P & Eb & Ec & Et & Enb & Enc & _).
     constructor; try rewrite Eb; try rewrite Ec; try apply I; auto; try lia.
-    apply TC_send; auto.
+    eapply TC_send; [left; reflexivity| | |]; auto.
+    + unfold live. rewrite Eb. change (?x :: ?a ++ ?b) with ((x :: a) ++ b). apply Permutation_app_tail; auto.
+    + eapply perm_in; [apply Permutation_sym, P|]. simpl; auto.
+  - (* SendP *)
+    destruct (send_p_spec _ _ _ _ _ _ _ _ H) as (_ & _ & P & Eb & Ec & Et & Enb & Enc & _).
+    constructor; try rewrite Eb; try rewrite Ec; try apply I; auto; try lia.
+    eapply TC_send; [right; reflexivity| | |]; auto.
     + unfold live. rewrite Eb. change (?x :: ?a ++ ?b) with ((x :: a) ++ b). apply Permutation_app_tail; auto.
     + eapply perm_in; [apply Permutation_sym, P|]. simpl; auto.
   - (* Cancel *)
@@ -871,33 +964,37 @@ Proof. reflexivity. Qed.
 Lemma nodup_app_r : forall A (a b : list A), NoDup (a ++ b) -> NoDup b.
 Proof. induction a; simpl; intros b N; auto. inv N; auto. Qed.
 
-Lemma step_rel_inv : forall s s' o, Inv s -> step_rel s s' o -> Inv s'.
+Lemma step_rel_inv : forall s s' o, Inv s -> step_rel s s' o -> rel_rel s s' o -> Inv s'.
 Proof.
-  intros s s' o I [TX BS BN NB CS CN NC].
+  intros s s' o I [TX BS BN NB CS CN NC] [RR RN].
   assert (IDS : NoDup (ids (live s')) /\ forall x, In x (live s') -> tx_id x < next_tx s').
-  { destruct TX.
+  { destruct TX as [o P E _ | o sender dest amount fee token _ P Hin E | id who x Hin Hid Hs P E
+                   | id who add token which x L Hin Hid Ha P P' Hin' E | token nonce h b Hb Ht Hn P E].
     - split; [eapply nodup_perm_ids; [apply Permutation_sym; eauto | apply I]|].
-      intros x Hx. rewrite H0. apply (inv_idlt _ I). eapply perm_in; eauto.
+      intros x Hx. rewrite E. apply (inv_idlt _ I). eapply perm_in; eauto.
     - split.
       + eapply nodup_perm_ids; [apply Permutation_sym; eauto|]. simpl. constructor; [|apply I].
         intro Hx. apply in_map_iff in Hx. destruct Hx as (y & Ey & Hy). apply (inv_idlt _ I) in Hy. lia.
-      + intros x Hx. apply (perm_in _ _ _ _ H) in Hx. destruct Hx as [<-|Hx]; simpl; [lia|].
+      + intros x Hx. apply (perm_in _ _ _ _ P) in Hx. destruct Hx as [<-|Hx]; simpl; [lia|].
         apply (inv_idlt _ I) in Hx. lia.
-    - pose proof (nodup_perm_ids _ _ H2 (inv_ids _ I)) as N. simpl in N. inv N. split; auto.
-      intros y Hy. rewrite H3. apply (inv_idlt _ I). eapply perm_in; [apply Permutation_sym; eauto|]. simpl; auto.
-    - pose proof (nodup_perm_ids _ _ H2 (inv_ids _ I)) as N. split.
+    - pose proof (nodup_perm_ids _ _ P (inv_ids _ I)) as N. simpl in N. inv N. split; auto.
+      intros y Hy. rewrite E. apply (inv_idlt _ I). eapply perm_in; [apply Permutation_sym; eauto|]. simpl; auto.
+    - pose proof (nodup_perm_ids _ _ P (inv_ids _ I)) as N. split.
       + eapply nodup_perm_ids; [apply Permutation_sym; eauto|]. exact N.
-      + intros y Hy. rewrite H5. apply (perm_in _ _ _ _ H3) in Hy.
-        assert (forall z, In z (x :: L) -> tx_id z < next_tx s).
+      + intros y Hy. rewrite E. apply (perm_in _ _ _ _ P') in Hy.
+        assert (F : forall z, In z (x :: L) -> tx_id z < next_tx s).
         { intros z Hz. apply (inv_idlt _ I). eapply perm_in; [apply Permutation_sym; eauto|auto]. }
-        destruct Hy as [<-|Hy]; [rewrite with_fee_id; apply H6; simpl; auto | apply H6; simpl; auto].
-    - pose proof (nodup_perm_ids _ _ H2 (inv_ids _ I)) as N. unfold ids in N. rewrite map_app in N.
+        destruct Hy as [<-|Hy]; [rewrite with_fee_id; apply F; simpl; auto | apply F; simpl; auto].
+    - pose proof (nodup_perm_ids _ _ P (inv_ids _ I)) as N. unfold ids in N. rewrite map_app in N.
       apply nodup_app_r in N. split; auto.
-      intros y Hy. rewrite H3. apply (inv_idlt _ I). eapply perm_in; [apply Permutation_sym; eauto|].
+      intros y Hy. rewrite E. apply (inv_idlt _ I). eapply perm_in; [apply Permutation_sym; eauto|].
       apply in_or_app; auto. }
   destruct IDS as [I1 I2]. constructor; auto.
   - intros b Hb. destruct (BS b Hb) as [Hb'|(E & E' & _)]; [apply (inv_bnlt _ I) in Hb'|]; lia.
   - intros c Hc. destruct (CS c Hc) as [Hc'|(E & E' & _)]; [apply (inv_cnlt _ I) in Hc'|]; lia.
+  - intros r Hr. apply RR in Hr. destruct Hr as [[_ Hr]|[-> (a & b & c & d & t & -> & _)]]; auto.
+    inversion TX as [? ? ? F | ? sender dest amount fee token Hs P Hin E | | |]; subst; [contradiction|].
+    apply (in_map tx_id) in Hin. unfold live, ids. rewrite map_app. apply in_or_app. left. exact Hin.
 Qed.
 
 Lemma init_inv : forall p ts l h0, Inv (init p ts l h0).
@@ -908,10 +1005,127 @@ Proof.
   intros s o. unfold step_state, step. destruct (exec s o) as [[s' evs]| |]; simpl; eauto.
 Qed.
 
+(* ---------- the erc20 outgoing relation ---------- *)
+Lemma existsb_id_false : forall l r, existsb (fun x => tx_id x =? r) l = false <-> ~ In r (ids l).
+Proof.
+  intros l r. split.
+  - intros E H. unfold ids in H. apply in_map_iff in H. destruct H as (x & Ex & Hx).
+    assert (existsb (fun x => tx_id x =? r) l = true); [|congruence].
+    apply existsb_exists. exists x. split; auto. apply Z.eqb_eq; auto.
+  - intros N. destruct (existsb (fun x => tx_id x =? r) l) eqn:E; auto. exfalso. apply N.
+    apply existsb_exists in E. destruct E as (x & Hx & Ex). apply Z.eqb_eq in Ex. rewrite <- Ex. apply in_map; auto.
+Qed.
+
+Lemma existsb_z : forall id l, existsb (Z.eqb id) l = true <-> In id l.
+Proof.
+  intros id l. rewrite existsb_exists. split.
+  - intros (x & Hx & E). apply Z.eqb_eq in E. subst; auto.
+  - intros H. exists id. split; auto. apply Z.eqb_refl.
+Qed.
+
+Lemma nodup_app_disj : forall (a b : list Z) x, NoDup (a ++ b) -> In x a -> In x b -> False.
+Proof.
+  induction a as [|y r IH]; simpl; intros b x N Ha Hb; [contradiction|]. inv N.
+  destruct Ha as [->|Ha]; [apply H1, in_or_app; auto | eauto].
+Qed.
+
+Ltac nosend := match goal with H : is_send _ _ _ _ _ _ |- _ => destruct H as [H|H]; discriminate H end.
+
+Lemma exec_relation : forall s o s' evs, Inv s -> exec s o = ROk (s', evs) -> rel_rel s s' o.
+Proof.
+  intros s o s' evs I H. pose proof (exec_rel _ _ _ _ I H) as [TX _ _ _ _ _ _].
+  pose proof (inv_pool_nodup _ I) as NDp.
+  assert (KEEP : relation s' = relation s -> ~ evm_erc20_send s o ->
+                 (forall r, In r (ids (live s)) -> In r (ids (live s'))) -> rel_rel s s' o).
+  { intros E N L. apply rel_keep; auto. }
+  assert (PERM : Permutation (live s') (live s) -> forall r, In r (ids (live s)) -> In r (ids (live s'))).
+  { intros P r. apply perm_ids_in, Permutation_sym, P. }
+  destruct o; simpl in H.
+  - (* Send *)
+    destruct (send_spec _ _ _ _ _ _ _ _ H) as (_ & _ & _ & _ & _ & _ & _ & _ & _ & _ & Er & _).
+    apply KEEP; auto. { intros (a & b & c & d & t & E9 & _). discriminate. }
+    inversion TX as [ | ? ? ? ? ? ? _ P _ _ | | |]; subst; try contradiction; try nosend.
+    intros r Hr. eapply perm_ids_in; [apply Permutation_sym, P|]. simpl. auto.
+  - (* SendP *)
+    destruct (send_p_spec _ _ _ _ _ _ _ _ H) as (_ & _ & _ & _ & _ & _ & _ & _ & _ & _ & _ & [(K & Er & _)|(K & Er & _)]);
+      inversion TX as [ | ? ? ? ? ? ? Hsend P Hin _ | | |]; subst; try contradiction; destruct Hsend as [Hsend|Hsend]; inv Hsend.
+    + apply KEEP; auto. { intros (a & b & c & d & t & E9 & K'). inv E9. congruence. }
+      intros r Hr. eapply perm_ids_in; [apply Permutation_sym, P|]. simpl. auto.
+    + assert (L : forall r, In r (ids (live s)) -> In r (ids (live s'))).
+      { intros r Hr. eapply perm_ids_in; [apply Permutation_sym, P|]. simpl. auto. }
+      split.
+      * intros r. rewrite Er. simpl. split.
+        -- intros [<-|Hr]; [right; split; auto; do 5 eexists; split; [reflexivity | exact K]|].
+           left. split; auto. apply L, (inv_rel _ I); auto.
+        -- intros [[Hr _]|[-> _]]; auto.
+      * rewrite Er. constructor; [|apply I]. intro Hr. apply (inv_rel _ I) in Hr.
+        unfold ids in Hr. apply in_map_iff in Hr. destruct Hr as (y & Ey & Hy). apply (inv_idlt _ I) in Hy. lia.
+  - (* Cancel *)
+    destruct (cancel_spec _ _ _ _ _ NDp H) as (x & Hin & Hid & Hs & _ & _ & _ & _ & _ & _ & _ & _ & _ & k & l & _ & _ & R).
+    inversion TX as [ | | ? ? x' Hin' Hid' Hs' P E | |]; subst; try contradiction; try nosend.
+    pose proof (nodup_perm_ids _ _ P (inv_ids _ I)) as N. simpl in N. inversion N as [|? ? N1 N2]; subst.
+    assert (x' = x) by (eapply nodup_ids_unique; [apply NDp| | |]; auto). subst x'.
+    assert (LS : forall r, In r (ids (live s)) -> r <> tx_id x -> In r (ids (live s'))).
+    { intros r Hr Ne. apply (perm_ids_in _ _ _ P) in Hr. simpl in Hr. destruct Hr; [congruence|auto]. }
+    destruct (existsb (Z.eqb (tx_id x)) (relation s)) eqn:Rl.
+    + destruct R as [_ Er]. split.
+      * intros r. rewrite Er, filter_In, negb_true_iff, Z.eqb_neq. split.
+        -- intros [Hr Ne]. left. split; auto. apply LS; auto. apply (inv_rel _ I); auto.
+        -- intros [[Hr Hl]|[_ (a & b & c & d & t & E9 & _)]]; [|discriminate]. split; auto.
+           intro E0. subst r. contradiction.
+      * rewrite Er. apply NoDup_filter, I.
+    + destruct R as [_ Er]. split; [|rewrite Er; apply I].
+      intros r. rewrite Er. split.
+      * intros Hr. left. split; auto. apply LS; [apply (inv_rel _ I); auto|].
+        intro E0. subst r. apply existsb_z in Hr. congruence.
+      * intros [[Hr _]|[_ (a & b & c & d & t & E9 & _)]]; [auto|discriminate].
+  - (* IncreaseFee *)
+    destruct (increase_spec _ _ _ _ _ _ _ _ NDp H) as (_ & x & L & _ & _ & _ & _ & _ & _ & _ & _ & _ & _ & _ & _ & Er & _).
+    apply KEEP; auto. { intros (a & b & c & d & t & E9 & _). discriminate. }
+    inversion TX as [ | | | ? ? ? ? ? x' L' _ _ _ P P' _ _ |]; subst; try contradiction; try nosend.
+    intros r Hr. apply (perm_ids_in _ _ _ P) in Hr. eapply perm_ids_in; [apply Permutation_sym, P'|]. exact Hr.
+  - (* RequestBatch *)
+    destruct (request_batch_spec _ _ _ _ _ _ _ _ _ NDp (inv_bnlt _ I) H) as (b & R). decompose [and] R.
+    apply KEEP; auto. { intros (a & b' & c & d & t & E9 & _). discriminate. }
+    inversion TX as [? P _ _ | | | |]; subst; try nosend. auto.
+  - (* BatchExecuted *)
+    destruct (batch_executed_op_spec _ _ _ _ _ _ I H) as (_ & _ & s1 & e1 & e2 & H1 & H2 & _ & S & ND1).
+    destruct (batch_executed_relation (observed s h) _ _ _ _ (inv_bn _ I) H1) as (b & F & Er). simpl in F, Er.
+    destruct (find_batch_in _ _ _ _ F) as (Hb & Ht & Hn).
+    inversion TX as [ | | | | ? ? ? b' Hb' Ht' Hn' P E]; subst; try contradiction; try nosend.
+    assert (b' = b) by (eapply nodup_bnonce_unique; [apply I| | |]; auto; congruence). subst b'.
+    pose proof (nodup_perm_ids _ _ P (inv_ids _ I)) as N. unfold ids in N. rewrite map_app in N.
+    unfold rel_rel. rewrite (sh_rel _ _ S), Er. split; [|apply NoDup_filter, I].
+    intros r. rewrite filter_In, negb_true_iff, existsb_id_false. split.
+    + intros [Hr Nb]. left. split; auto. apply (inv_rel _ I) in Hr. apply (perm_ids_in _ _ _ P) in Hr.
+      unfold ids in Hr. rewrite map_app in Hr. apply in_app_or in Hr. destruct Hr; [contradiction|auto].
+    + intros [[Hr Hl]|[_ (a & b0 & c & d & t & E9 & _)]]; [|discriminate]. split; auto.
+      intro Hb0. eapply nodup_app_disj; eauto.
+  - (* Observe *)
+    destruct (observe_spec _ _ _ _ I H) as (_ & S & _).
+    apply KEEP; [apply (sh_rel _ _ S) | intros (a & b & c & d & t & E9 & _); discriminate|].
+    inversion TX as [? P _ _ | | | |]; subst; try nosend. auto.
+  - (* BridgeCall *)
+    apply KEEP; [eapply bridge_call_relation; eauto | intros (a & b & c & d & t & E9 & _); discriminate|].
+    inversion TX as [? P _ _ | | | |]; subst; try nosend. auto.
+  - (* BridgeCallP *)
+    apply KEEP; [eapply bridge_call_p_relation; eauto | intros (a & b & c & d & t & E9 & _); discriminate|].
+    inversion TX as [? P _ _ | | | |]; subst; try nosend. auto.
+  - (* ObserveResult *)
+    destruct (observe_result_spec _ _ _ _ _ _ I H) as (_ & _ & S & _).
+    apply KEEP; [apply (sh_rel _ _ S) | intros (a & b & c & d & t & E9 & _); discriminate|].
+    inversion TX as [? P _ _ | | | |]; subst; try nosend. auto.
+  - (* ExecResult *)
+    apply KEEP; [eapply exec_result_relation; eauto | intros (a & b & c & d & t & E9 & _); discriminate|].
+    inversion TX as [? P _ _ | | | |]; subst; try nosend. auto.
+  - inv H. apply KEEP; auto. intros (a & b & c & d & t & E9 & _); discriminate.
+  - des H. inv H. apply KEEP; auto. intros (a & b & c & d & t & E9 & _); discriminate.
+Qed.
+
 Lemma step_inv : forall s o, Inv s -> Inv (step_state s o).
 Proof.
   intros s o I. destruct (step_state_cases s o) as [(evs & H)|E]; [|rewrite E; auto].
-  eapply step_rel_inv; eauto. eapply exec_rel; eauto.
+  eapply step_rel_inv; eauto; [eapply exec_rel; eauto | eapply exec_relation; eauto].
 Qed.
 
 Lemma run_inv : forall ops s, Inv s -> Inv (run s ops).
